@@ -26,13 +26,22 @@ Qed.
 Print Assumptions C01_head_agrees_with_get.
 
 (* a copy delivers the source's bytes at the destination *)
-Theorem C01_copy_roundtrip : forall c s sb sk b k s1 body,
-  step c s (OCopy sb sk b k) = (s1, RCopy body) ->
+Theorem C01_copy_roundtrip : forall c s sb sk b k m s1 body,
+  step c s (OCopy sb sk b k m) = (s1, RCopy body) ->
   (exists v sv, get_object s sb sk = OObj v sv /\ vd_body v = body) /\
   (exists v' sv', get_object s1 b k = OObj v' sv' /\ vd_body v' = body) /\
   ((sb, sk) <> (b, k) -> get_bucket s sb <> None -> get_object s1 sb sk = get_object s sb sk).
 Proof. exact law_copy. Qed.
 Print Assumptions C01_copy_roundtrip.
+
+(* ... and the metadata of the copy request completed by the source's; the source keeps its own
+   (third clause of the previous theorem: the whole source object is unchanged) *)
+Theorem C01_copy_metadata : forall c s sb sk b k m s1 body,
+  step c s (OCopy sb sk b k m) = (s1, RCopy body) ->
+  exists v sv v' sv', get_object s sb sk = OObj v sv /\ get_object s1 b k = OObj v' sv' /\
+                      vd_meta v' = merge_meta m (vd_meta v) /\ vd_marker v' = false.
+Proof. exact law_copy_meta. Qed.
+Print Assumptions C01_copy_metadata.
 
 (* the answer is stable: operations on other keys do not change it *)
 Theorem C01_stable_under_other_puts : forall c s b k body m b' k',
